@@ -78,6 +78,19 @@ fn check_supply(seed: u64) -> i32 {
             if got != Ok(t as u64) { return fail("supply::service_time", format!("{{\"supply\": {}, \"demand\": {}}}", desc, dem), format!("{:?}", got), format!("{}", t)); }
         }
     }}}}
+    // large magnitudes at period boundaries (where an inexact period count shows): k full periods, k beyond 2^53
+    for p in 1..=6u64 { for q in 1..=p { for dl in q..=p { for kind in 1..3u64 {
+        let (sb, pp, qq, dd, desc) = supply_case(kind, q, dl, p);
+        for k in [(1u64 << 53) + 1, (1u64 << 53) + 2, (1u64 << 54) + 3, (1u64 << 56) + 1, (1u64 << 59) + 5] {
+            for y in 0..=p {
+                let t = ((pp - qq) + (dd - qq) + (k as u128) * pp + y as u128) as u128;
+                if t + 2 * pp > u64::MAX as u128 { continue; }
+                let got = guarded(|| us(sb.provided_service(d(t as u64))));
+                let exp = sbf_spec(pp, qq, dd, t);
+                if got != Ok(exp as u64) { return fail("supply::provided_service", format!("{{\"supply\": {}, \"delta\": {}}}", desc, t), format!("{:?}", got), format!("{}", exp)); }
+            }
+        }
+    }}}}
     // large magnitudes (sampled): closed form vs spec in 128-bit arithmetic
     let mut r = Rng(seed ^ 0x5eed);
     for _ in 0..4000 {
@@ -229,6 +242,79 @@ fn check_arrival(_seed: u64) -> i32 {
     0
 }
 
+
+// ------------------------------------------------------------------------------------------------ steps_iter, conversions, delta-min duality
+fn steps_ok<A: ArrivalBound + ?Sized>(ab: &A, horizon: u64) -> Result<(), String> {
+    let got: Vec<u64> = ab.steps_iter().map(ud).take_while(|x| *x <= horizon).collect();
+    let exp: Vec<u64> = (1..=horizon).filter(|x| ab.number_arrivals(d(*x - 1)) < ab.number_arrivals(d(*x))).collect();
+    if got != exp { Err(format!("steps {:?} expected {:?}", got, exp)) } else { Ok(()) }
+}
+fn rb_steps_ok<R: RequestBound + ?Sized>(rb: &R, horizon: u64) -> Result<(), String> {
+    let got: Vec<u64> = rb.steps_iter().map(ud).take_while(|x| *x <= horizon).collect();
+    let exp: Vec<u64> = (1..=horizon).filter(|x| rb.service_needed(d(*x - 1)) < rb.service_needed(d(*x))).collect();
+    if got != exp { return Err(format!("steps {:?} expected {:?}", got, exp)); }
+    let offs: Vec<u64> = demand::step_offsets(rb).map(u64::from).take_while(|x| *x < horizon).collect();
+    let exp_o: Vec<u64> = exp.iter().map(|x| x - 1).collect();
+    if offs != exp_o { Err(format!("step_offsets {:?} expected {:?}", offs, exp_o)) } else { Ok(()) }
+}
+fn check_steps(_seed: u64) -> i32 {
+    let h = 40u64;
+    macro_rules! chk { ($name:expr, $desc:expr, $e:expr) => {{ match guarded(|| $e) { Ok(Ok(())) => {}, Ok(Err(m)) => return fail($name, $desc, m, "the increases of the bound".into()), Err(m) => return fail($name, $desc, m, "no panic".into()) } }}}
+    for t in 1..=7u64 { for j in 0..=15u64 {
+        let sp = Sporadic::new(d(t), d(j));
+        chk!("steps::Sporadic", format!("{{\"T\": {}, \"J\": {}}}", t, j), steps_ok(&sp, h));
+        if j == 0 { chk!("steps::Periodic", format!("{{\"T\": {}}}", t), steps_ok(&Periodic::new(d(t)), h)); }
+        for r in [0u64, 1, 3, 8] {
+            chk!("steps::Propagated", format!("{{\"T\": {}, \"J\": {}, \"R\": {}}}", t, j, r), steps_ok(&Propagated::with_jitter(&sp, d(r)), h));
+            chk!("steps::clone_with_jitter", format!("{{\"T\": {}, \"J\": {}, \"R\": {}}}", t, j, r), steps_ok(sp.clone_with_jitter(d(r)).as_ref(), h));
+        }
+        for t2 in [2u64, 3, 5] {
+            let so = arrival::sum_of(sp, Periodic::new(d(t2)));
+            chk!("steps::sum_of", format!("{{\"a\": [{}, {}], \"b\": {}}}", t, j, t2), steps_ok(&so, h));
+            let v = vec![sp, Sporadic::new(d(t2), d(1))];
+            chk!("steps::Vec", format!("{{\"a\": [{}, {}], \"b\": [{}, 1]}}", t, j, t2), steps_ok(&v, h));
+            chk!("steps::slice", format!("{{\"a\": [{}, {}], \"b\": [{}, 1]}}", t, j, t2), steps_ok(&v[..], h));
+            let rbfs = vec![RBF::new(sp, Scalar::new(s(2))), RBF::new(Sporadic::new(d(t2), d(1)), Scalar::new(s(1)))];
+            chk!("steps::RBF", format!("{{\"T\": {}, \"J\": {}}}", t, j), rb_steps_ok(&rbfs[0], h));
+            chk!("steps::demand::Slice", format!("{{\"a\": [{}, {}], \"b\": [{}, 1]}}", t, j, t2), rb_steps_ok(&demand::Slice::of(&rbfs), h));
+            chk!("steps::demand::Aggregate", format!("{{\"a\": [{}, {}], \"b\": [{}, 1]}}", t, j, t2), rb_steps_ok(&demand::Aggregate::new(rbfs.clone()), h));
+        }
+    }}
+    chk!("steps::Never", "\"Never\"".to_string(), steps_ok(&arrival::Never {}, h));
+    chk!("steps::Propagated<Never>", "\"Propagated<Never>\"".to_string(), steps_ok(&Propagated::with_jitter(&arrival::Never {}, d(3)), h));
+    // delta-min vectors WITHOUT a plateau at the end (known finding KF5) -- plateaus in the middle are included
+    for a in 0..=3u64 { for b in a..=5u64 { for c in (b + 1)..=8u64 {
+        let cu = Curve::new(vec![d(a), d(b), d(c)]);
+        chk!("steps::Curve", format!("{{\"dmin\": [{}, {}, {}]}}", a, b, c), steps_ok(&cu, h));
+        if a >= 1 {
+            let ex = arrival::ExtrapolatingCurve::new(Curve::new(vec![d(a), d(b), d(c)]));
+            chk!("steps::ExtrapolatingCurve", format!("{{\"dmin\": [{}, {}, {}]}}", a, b, c), steps_ok(&ex, h));
+        }
+    }}}
+    // conversions: never smaller than the source, equal on the covered prefix (sources without bursts of 3+: KF6)
+    for t in 2..=7u64 { for j in 0..t { for n in 2..=6usize { for hz in [5u64, 11, 20] {
+        let sp = Sporadic::new(d(t), d(j));
+        let desc = format!("{{\"T\": {}, \"J\": {}, \"njobs\": {}, \"horizon\": {}}}", t, j, n, hz);
+        let cu = match guarded(|| Curve::from_arrival_bound(&sp, n)) { Ok(c) => c, Err(e) => return fail("conv::Curve::from_arrival_bound", desc, e, "no panic".into()) };
+        let cu2 = match guarded(|| Curve::from_arrival_bound_until(&sp, d(hz))) { Ok(c) => c, Err(e) => return fail("conv::Curve::from_arrival_bound_until", desc, e, "no panic".into()) };
+        let acp = match guarded(|| arrival::ArrivalCurvePrefix::from_arrival_bound_until(&sp, d(hz))) { Ok(c) => c, Err(e) => return fail("conv::ArrivalCurvePrefix::from_arrival_bound_until", desc, e, "no panic".into()) };
+        for delta in 0..=60u64 {
+            let src = sp.number_arrivals(d(delta));
+            for (name, got) in [("conv::Curve::from_arrival_bound", guarded(|| cu.number_arrivals(d(delta)))), ("conv::Curve::from_arrival_bound_until", guarded(|| cu2.number_arrivals(d(delta)))), ("conv::ArrivalCurvePrefix::from_arrival_bound_until", guarded(|| acp.number_arrivals(d(delta))))] {
+                match got { Ok(g) if g >= src => {}, other => return fail(name, format!("{{\"T\": {}, \"J\": {}, \"njobs\": {}, \"horizon\": {}, \"delta\": {}}}", t, j, n, hz, delta), format!("{:?}", other), format!(">= {} (the source)", src)) }
+            }
+            if delta <= hz { let g = acp.number_arrivals(d(delta)); if g != src { return fail("conv::ArrivalCurvePrefix::from_arrival_bound_until", format!("{{\"T\": {}, \"J\": {}, \"horizon\": {}, \"delta\": {}}}", t, j, hz, delta), format!("{}", g), format!("{} (exact up to the horizon)", src)); } }
+            if delta <= hz.max(1) && delta <= ud(cu2.min_distance(1000)) { let g = cu2.number_arrivals(d(delta)); if g != src { return fail("conv::Curve::from_arrival_bound_until", format!("{{\"T\": {}, \"J\": {}, \"horizon\": {}, \"delta\": {}}}", t, j, hz, delta), format!("{}", g), format!("{} (exact on the covered prefix)", src)); } }
+        }
+        // delta_min_iter is the dual of number_arrivals
+        for (nn, x) in arrival::delta_min_iter(&sp).take(8) {
+            let x = ud(x);
+            if nn >= 2 && !(sp.number_arrivals(d(x + 1)) >= nn && sp.number_arrivals(d(x)) < nn) { return fail("conv::delta_min_iter", format!("{{\"T\": {}, \"J\": {}, \"item\": [{}, {}]}}", t, j, nn, x), format!("na(x+1) = {}, na(x) = {}", sp.number_arrivals(d(x + 1)), sp.number_arrivals(d(x))), "n events fit into x+1 but not into x".into()); }
+        }
+    }}}}
+    0
+}
+
 // ------------------------------------------------------------------------------------------------ wcet / demand
 fn check_wcet_demand(_seed: u64) -> i32 {
     for a in 0..=4u64 { for b in a..=6u64 { for c in b..=8u64 { for n in 0..=10usize {
@@ -276,6 +362,13 @@ fn check_wcet_demand(_seed: u64) -> i32 {
         if us(ag.service_needed(d(delta))) != exp_sum || us(ag.least_wcet_in_interval(d(delta))) != exp_min || us(ag.service_needed_by_n_jobs_per_component(d(delta), n)) != exp_npc {
             return fail("demand::Aggregate", format!("{{\"tasks\": [[{}, {}], [{}, {}]], \"delta\": {}, \"n\": {}}}", t1, c1, t2, c2, delta, n), "sum/min/per-component differ".into(), format!("{} / {} / {}", exp_sum, exp_min, exp_npc));
         }
+        // multiframe component with non-ascending costs
+        let mf = vec![RBF::new(Periodic::new(d(t1)), wcet::Multiframe::new(vec![s(c1 + 4), s(c1)])), RBF::new(Periodic::new(d(t2)), wcet::Multiframe::new(vec![s(c2), s(c2 + 2)]))];
+        let n2p = ceil_div(delta, t2);
+        let mfl = |nn: u64, c: &[u64]| if nn == 0 { 0 } else { *c[..(nn as usize).min(2)].iter().min().unwrap() };
+        let exp_mf = mfl(n1, &[c1 + 4, c1]).min(mfl(n2p, &[c2, c2 + 2]));
+        let got_mf = us(demand::Slice::of(&mf).least_wcet_in_interval(d(delta)));
+        if got_mf != exp_mf { return fail("demand::Slice::least_wcet_in_interval", format!("{{\"multiframe\": [[{}, [{}, {}]], [{}, [{}, {}]]], \"delta\": {}}}", t1, c1 + 4, c1, t2, c2, c2 + 2, delta), format!("{}", got_mf), format!("{}", exp_mf)); }
         let jc: u64 = ag.job_cost_iter(d(delta)).map(us).sum();
         if jc != exp_sum { return fail("demand::job_cost_iter", format!("{{\"tasks\": [[{}, {}], [{}, {}]], \"delta\": {}}}", t1, c1, t2, c2, delta), format!("{}", jc), format!("{}", exp_sum)); }
     }}}}}}
@@ -363,7 +456,12 @@ pub fn search(obligation: &str, seed: u64) -> i32 {
     let mut ran = false;
     let mut run = |f: fn(u64) -> i32| -> i32 { ran = true; f(seed) };
     let mut rc = 0;
-    if o.contains("src/supply/") { rc = run(check_supply); if rc == 0 { rc = run(check_fixed_point); } }
+    if let Some(cat) = o.strip_prefix("cat:") {
+        rc = match cat { "supply" => run(check_supply), "fixed_point" => run(check_fixed_point), "arrival" => run(check_arrival), "steps" => run(check_steps),
+                         "wcet_demand" => run(check_wcet_demand), "analyses" => run(check_analyses), _ => 3 };
+    }
+    else if o.contains("src/arrival/steps") || o.contains("src/arrival/dmin") || o.contains("arrival_curve_prefix") { rc = run(check_steps); }
+    else if o.contains("src/supply/") { rc = run(check_supply); if rc == 0 { rc = run(check_fixed_point); } }
     else if o.contains("src/fixed_point.rs") || o.contains("src/time.rs") { rc = run(check_fixed_point); if rc == 0 { rc = run(check_analyses); } }
     else if o.contains("src/arrival/") { rc = run(check_arrival); }
     else if o.contains("src/wcet/") || o.contains("src/demand/") { rc = run(check_wcet_demand); }
@@ -379,6 +477,7 @@ pub fn replay(json: &str) -> i32 {
     let f: Option<fn(u64) -> i32> = if mirror.starts_with("supply::") { Some(check_supply) }
         else if mirror.starts_with("fixed_point::") { Some(check_fixed_point) }
         else if mirror.starts_with("arrival::") { Some(check_arrival) }
+        else if mirror.starts_with("steps::") || mirror.starts_with("conv::") { Some(check_steps) }
         else if mirror.starts_with("wcet::") || mirror.starts_with("demand::") { Some(check_wcet_demand) }
         else if mirror.contains("dedicated_uniproc_rta") { Some(check_analyses) } else { None };
     let seed = json.split("\"seed\": ").nth(1).and_then(|x| x.trim_end_matches('}').trim().parse().ok()).unwrap_or(0);
